@@ -293,6 +293,40 @@ impl C20 {
         obs.nontrivial(crate::rng::fnv64(format!("rnd{}", case.index).as_bytes()));
     }
 
+    /// G_sol_b over every sun altitude in [-90, 90] (0.01 degree steps) x five horizontal direct inputs: the beam value is
+    /// finite and never negative whatever altitude a weather file yields (zenith > 90 at sunrise/sunset), and equals
+    /// dir / sin(altitude) once the sun is clearly up
+    fn beam_sweep(&self, obs: &mut Obs) {
+        for ai in -9000..=9000i32 {
+            let alt = ai as f32 / 100.0;
+            for dir in [0.0f32, 0.5, 15.0, 300.0, 950.0] {
+                obs.eval();
+                obs.count("beam_values_checked");
+                let b = climate::solar::G_sol_b(dir, alt);
+                if !b.is_finite() || b < 0.0 {
+                    obs.violation("beam-negative-or-not-finite:G_sol_b", format!("G_sol_b(dir {}, altitude {}) = {}", dir, alt, b), json!({"dir": dir, "altitude": alt, "got": b}));
+                    return;
+                }
+                if alt >= 1.0 {
+                    let want = dir as f64 / (alt as f64).to_radians().sin();
+                    if (b as f64 - want).abs() > 1e-3 * want.max(1.0) {
+                        obs.violation("beam-value:G_sol_b", format!("G_sol_b(dir {}, altitude {}) = {}, dir/sin(altitude) = {}", dir, alt, b, want), json!({"dir": dir, "altitude": alt, "got": b, "want": want}));
+                        return;
+                    }
+                }
+                // the direct part on any surface built from it is not negative either
+                let i = climate::solar::I_dir(b, (ai.rem_euclid(181)) as f32);
+                if !i.is_finite() || i < 0.0 {
+                    obs.violation("beam-negative-or-not-finite:I_dir", format!("I_dir({}, {}) = {}", b, ai.rem_euclid(181), i), json!({}));
+                    return;
+                }
+            }
+            if ai % 100 == 0 {
+                obs.nontrivial(crate::rng::fnv64(format!("beam{}", ai).as_bytes()));
+            }
+        }
+    }
+
     fn tables(&self, case: &Case, obs: &mut Obs) {
         let zname = ZONES[case.index as usize];
         let z = zone(zname);
@@ -436,7 +470,7 @@ impl Property for C20 {
         "C20"
     }
     fn rule(&self) -> String {
-        "all 365 (month, day) pairs against the harness's month table; sun_position on a latitude [-66,66] x declination [-23.45,23.45] x hour-angle (-180,180) grid (quick 1 degree, thorough 0.5 degrees) compared as a direction vector (great-circle error <= 0.1 degree) with spherical astronomy whenever the true altitude exceeds 0.5 degrees; the noon altitude for every day x latitude -30..30 in 0.1 degree steps (sun at and near the zenith); angle_sol_surf and sunsurface_angles().angle against the angle between that vector and WallGeom::normal() for random tilts/azimuths; ray_dir_to_sun; radiation identities over all 8760 hours of zonaD3.met (horizontal surface = input for altitude >= 6, tilt 180 = albedo x global and no beam, beam >= 0) and random inputs; tables: 32 zones x 9 orientations x 12 months and 14 July rows present, shaped and non-negative; for D3: July rows equal the weather file's rows, monthly table equals the radiation model summed per month to +-0.0056; non-trivial = distinct date / latitude row / hour slice / zone".into()
+        "all 365 (month, day) pairs against the harness's month table; sun_position on a latitude [-66,66] x declination [-23.45,23.45] x hour-angle (-180,180) grid (quick 1 degree, thorough 0.5 degrees) compared as a direction vector (great-circle error <= 0.1 degree) with spherical astronomy whenever the true altitude exceeds 0.5 degrees; the noon altitude for every day x latitude -30..30 in 0.1 degree steps (sun at and near the zenith); angle_sol_surf and sunsurface_angles().angle against the angle between that vector and WallGeom::normal() for random tilts/azimuths; ray_dir_to_sun; radiation identities over all 8760 hours of zonaD3.met (horizontal surface = input for altitude >= 6, tilt 180 = albedo x global and no beam, beam >= 0) and random inputs; G_sol_b itself for every altitude -90..90 in 0.01 degree steps x 5 direct inputs (finite, >= 0, = dir/sin(alt) from 1 degree up); tables: 32 zones x 9 orientations x 12 months and 14 July rows present, shaped and non-negative; for D3: July rows equal the weather file's rows, monthly table equals the radiation model summed per month to +-0.0056; non-trivial = distinct date / latitude row / hour slice / zone".into()
     }
     fn assumptions(&self) -> Vec<String> {
         vec![
@@ -449,6 +483,7 @@ impl Property for C20 {
         vec![
             ("calendar".into(), 1),
             ("noon-altitude".into(), 1),
+            ("beam-sweep".into(), 1),
             ("sun-grid".into(), (132.0 / step) as u64 + 1),
             ("surface-angles".into(), tier.pick(200, 3000)),
             ("radiation-met".into(), 73),
@@ -460,6 +495,7 @@ impl Property for C20 {
         vec![
             ("dates_checked".into(), 365),
             ("noon_altitudes_checked".into(), 219_000),
+            ("beam_values_checked".into(), 90_000),
             ("sun_positions_checked".into(), tier.pick(500_000, 4_000_000)),
             ("surface_angles_checked".into(), 100_000),
             ("hours_with_sun_above_6_degrees".into(), 3900),
@@ -474,6 +510,7 @@ impl Property for C20 {
         match case.kind {
             "calendar" => self.calendar(obs),
             "noon-altitude" => self.noon_altitude(obs),
+            "beam-sweep" => self.beam_sweep(obs),
             "sun-grid" => self.sun_grid(case, obs, case.tier.pick(10, 5) as f64 / 10.0),
             "surface-angles" => self.surface_angles(case, obs),
             "radiation-met" => self.radiation_met(case, obs),
